@@ -3,4 +3,5 @@ pub mod hexlab;
 pub mod multi;
 pub mod prefixes;
 pub mod script;
+pub mod trees;
 pub mod twin;
